@@ -122,6 +122,8 @@ type RigOpts struct {
 	Cfg func(*config.AppConfig)
 	// ReInit runs database.Init on the file (restart path) instead of a plain open.
 	ReInit bool
+	// Trace opens the file through the statement-recording driver (see sqltrace.go).
+	Trace bool
 }
 
 // CopyFile copies src to dst.
@@ -156,7 +158,12 @@ func OpenRig(path string, o RigOpts) *Rig {
 		db, err = database.Init(cfg, Quiet())
 	} else {
 		dsn := fmt.Sprintf("file:%s?_foreign_keys=true&pooling=true", path)
-		db, err = sqlx.Open("sqlite3", dsn)
+		drv := "sqlite3"
+		if o.Trace {
+			RegisterTraceDriver()
+			drv = TraceDriver
+		}
+		db, err = sqlx.Open(drv, dsn)
 	}
 	if err != nil {
 		panic(fmt.Sprintf("open rig: %v", err))
